@@ -324,7 +324,8 @@ pub fn random_db_term(r: &mut Rng, depth: usize, budget: &mut usize, binders: us
         2 => E::Pi("b".into(), r.chance(1, 3), bx(random_db_term(r, d, budget, binders)), bx(random_db_term(r, d, budget, binders + 1))),
         3 | 4 => E::App(bx(random_db_term(r, d, budget, binders)), bx(random_db_term(r, d, budget, binders))),
         5 | 6 => {
-            let n = 1 + r.usize(3);
+            // mostly small groups, sometimes large ones (4-8 definitions)
+            let n = if r.chance(1, 5) { 4 + r.usize(5) } else { 1 + r.usize(3) };
             let defs = (0..n).map(|i| (format!("d{i}"), random_db_term(r, d, budget, binders + n), random_db_term(r, d, budget, binders + n))).collect();
             E::Let(defs, bx(random_db_term(r, d, budget, binders + n)))
         }
@@ -345,9 +346,10 @@ impl Prop for C11P {
                 sec_ex("exhaustive-terms", total.div_ceil(BLOCK)),
                 sec_ex("groups-of-2-with-atomic-parts", 6u64.pow(5).div_ceil(BLOCK)),
                 sec_ex("groups-of-3-with-atomic-parts", tier.pick(3u64.pow(7), 6u64.pow(7)).div_ceil(BLOCK)),
+                sec("large-groups-with-atomic-parts", tier.pick(6_000, 120_000)),
                 sec("random-terms", tier.pick(4_000, 80_000)),
             ],
-            "every hole-free de Bruijn term of at most 4 (quick) / 5 (thorough) nodes over all term formers (groups of 1, 2 and 3 definitions, both implicit flags, indices 0-3) x cutoff 0-3 x amount -3..3 for signed_shift/unsigned_shift/free_variables, x index 0-3 x all 20 inserted terms of at most 2 nodes x shift 0-1 for open; random terms up to 200 nodes and depth 30; each result compared exactly with a named-term reference and checked against the laws; non-trivial = distinct term with at least one binder or free variable",
+            "every hole-free de Bruijn term of at most 4 (quick) / 5 (thorough) nodes over all term formers (groups of 1, 2 and 3 definitions, both implicit flags, indices 0-3) x cutoff 0-3 x amount -3..3 for signed_shift/unsigned_shift/free_variables, x index 0-3 x all 20 inserted terms of at most 2 nodes x shift 0-1 for open; groups of 4-8 definitions with atomic parts (variables inside and up to 4 beyond the group) under 0-2 binders (sampled); random terms up to 200 nodes and depth 30, groups of up to 8 definitions; each result compared exactly with a named-term reference and checked against the laws; non-trivial = distinct term with at least one binder or free variable",
         );
         p.assumptions = vec!["hole-free terms only (the statement is about hole-free terms); names are carried through unchanged".into()];
         p.floor_evaluations = 500_000;
@@ -400,6 +402,37 @@ impl Prop for C11P {
                     ctx.count(if n == 2 { "groups-of-2" } else { "groups-of-3" });
                     check_term(ctx, &e, &ins, 3, 3);
                 }
+            }
+            "large-groups-with-atomic-parts" => {
+                // group sizes beyond what the exhaustive sections reach (size thresholds, fast
+                // paths): atomic annotations, definitions and body, variables pointing into the
+                // group and at the 4 nearest binders outside it, the group itself under 0-2 binders
+                let mut r = Rng::for_case(ctx.seed, 2, idx);
+                let n = 4 + r.usize(5);
+                let under = r.usize(3);
+                let atom = |r: &mut Rng| -> E {
+                    match r.below(8) {
+                        0 => E::Type,
+                        1 => E::Lit(BigInt::from(1)),
+                        2 | 3 => {
+                            let k = r.usize(n);
+                            E::Var(format!("v{k}"), k)
+                        }
+                        _ => {
+                            let k = n + r.usize(4);
+                            E::Var(format!("v{k}"), k)
+                        }
+                    }
+                };
+                let defs: Vec<(String, E, E)> = (0..n).map(|k| (format!("d{k}"), atom(&mut r), atom(&mut r))).collect();
+                let mut e = E::Let(defs, bx(atom(&mut r)));
+                for b in 0..under {
+                    e = if r.chance(1, 2) { E::Lam(format!("w{b}"), false, bx(E::Type), bx(e)) } else { E::Pi(format!("w{b}"), r.chance(1, 4), bx(atom(&mut r)), bx(e)) };
+                }
+                ctx.nontrivial(hash_str(&e.show()));
+                ctx.count(&format!("large-groups:size-{n}"));
+                let ins = inserted_terms();
+                check_term(ctx, &e, &ins, 3, 3);
             }
             "random-terms" => {
                 let mut r = Rng::for_case(ctx.seed, 1, idx);
